@@ -16,8 +16,8 @@ use std::{
 };
 use thiserror::Error;
 use wac_types::{
-    BorrowedKey, BorrowedPackageKey, DefinedType, ItemKind, Package, PackageKey, SubtypeChecker,
-    Type, TypeAggregator, Types, ValueType,
+    BorrowedKey, BorrowedPackageKey, DefinedType, DefinedTypeId, ItemKind, Package, PackageKey,
+    SubtypeChecker, Type, TypeAggregator, Types, ValueType,
 };
 use wasm_encoder::{
     Alias, ComponentBuilder, ComponentExportKind, ComponentNameSection, ComponentTypeRef,
@@ -463,6 +463,28 @@ pub struct CompositionGraph {
     type_check_cache: HashSet<(ItemKind, ItemKind)>,
 }
 
+/// Visits the defined types referenced by `ty`, looking through those the graph does not
+/// define: the `list<r>` of an `option<list<r>>` must not hide the reference to `r`.
+fn visit_referenced_types(
+    types: &Types,
+    defined: &HashMap<Type, NodeIndex>,
+    ty: Type,
+    visitor: &mut impl FnMut(DefinedTypeId),
+) {
+    ty.visit_defined_types(types, &mut |_, id| -> Result<(), ()> {
+        let referenced = Type::Value(ValueType::Defined(id));
+        if referenced != ty {
+            visitor(id);
+            if !defined.contains_key(&referenced) {
+                visit_referenced_types(types, defined, referenced, visitor);
+            }
+        }
+
+        Ok(())
+    })
+    .ok();
+}
+
 impl CompositionGraph {
     /// Creates a new composition graph.
     pub fn new() -> Self {
@@ -676,33 +698,29 @@ impl CompositionGraph {
         );
 
         // Add dependency edges between the given type and any referenced defined types
-        ty.visit_defined_types(&self.types, &mut |_, id| {
+        visit_referenced_types(&self.types, &self.defined, ty, &mut |id| {
             let dep_ty = Type::Value(ValueType::Defined(id));
-            if dep_ty != ty {
-                if let Some(dep) = self.defined.get(&dep_ty) {
-                    if !self
-                        .graph
-                        .edges_connecting(*dep, index)
-                        .any(|e| matches!(e.weight(), Edge::Dependency))
-                    {
-                        log::debug!(
-                            "adding dependency edge from type `{from}` (dependency) to type `{name}` (dependent)",
-                            from = self.graph[*dep].export.as_ref().unwrap()
-                        );
-                        self.graph.add_edge(*dep, index, Edge::Dependency);
-                    }
+            if let Some(dep) = self.defined.get(&dep_ty) {
+                if !self
+                    .graph
+                    .edges_connecting(*dep, index)
+                    .any(|e| matches!(e.weight(), Edge::Dependency))
+                {
+                    log::debug!(
+                        "adding dependency edge from type `{from}` (dependency) to type `{name}` (dependent)",
+                        from = self.graph[*dep].export.as_ref().unwrap()
+                    );
+                    self.graph.add_edge(*dep, index, Edge::Dependency);
                 }
             }
-
-            Ok(())
-        })?;
+        });
 
         // Add dependency edges to any existing defined types that reference this one
         // (in node order, so that the encoding does not depend on hash map iteration order)
         let mut others = self.defined.iter().collect::<Vec<_>>();
         others.sort_by_key(|(_, n)| **n);
         for (other_ty, other) in others {
-            other_ty.visit_defined_types(&self.types, &mut |_, id| {
+            visit_referenced_types(&self.types, &self.defined, *other_ty, &mut |id| {
                 let dep_ty = Type::Value(ValueType::Defined(id));
                 if dep_ty == ty
                     && !self
@@ -716,9 +734,7 @@ impl CompositionGraph {
                     );
                     self.graph.add_edge(index, *other, Edge::Dependency);
                 }
-
-                Ok(())
-            })?;
+            });
         }
 
         self.defined.insert(ty, index);
